@@ -55,6 +55,7 @@ static void sampled_cell_req(const c08::Cell& c, Rng& r) {
   std::sort(qs.begin(), qs.end()); qs.erase(std::unique(qs.begin(), qs.end()), qs.end());
   std::vector<size_t> zq; for (size_t i = 0; i < qs.size(); i += std::max<size_t>(1, qs.size() / 24)) zq.push_back(qs[i]);
   std::vector<c08::Welford> zacc(zq.size());
+  std::vector<double> floor_hw(zq.size(), 0.0);
   c08::Welford frac, frac_near;     // per-trial fraction of (query, criterion) pairs inside the 3-sigma bounds; near = within 1% of the accurate end
   uint64_t pairs = 0, pairs_ok = 0, near_pairs = 0, near_ok = 0, exact_claims = 0;
   std::string worst; double worst_excess = 0;
@@ -88,6 +89,13 @@ static void sampled_cell_req(const c08::Cell& c, Rng& r) {
     if (ntot) frac_near.add(static_cast<double>(nok) / static_cast<double>(ntot));
     pairs += tot; pairs_ok += ok; near_pairs += ntot; near_ok += nok;
     for (size_t i = 0; i < zq.size(); ++i) zacc[i].add(sk->get_rank(t.dv[zq[i]], true));
+    if (trial + 1 == c.trials) {
+      // claimed one-sigma half width at the true rank (depends on k, hra, n and the number of levels only): scale of the sigma floor
+      for (size_t i = 0; i < zq.size(); ++i) {
+        const double tr = t.rank(zq[i], true);
+        floor_hw[i] = (sk->get_rank_upper_bound(tr, 1) - sk->get_rank_lower_bound(tr, 1)) / 2;
+      }
+    }
     if (sk->is_estimation_mode()) count("req_smp_trials_estimation_mode");
     count("req_smp_trials");
   }
@@ -103,7 +111,9 @@ static void sampled_cell_req(const c08::Cell& c, Rng& r) {
     " exact_claims=" + std::to_string(exact_claims) + worst;
   VF_CHECK(frac.mean >= thr, kp + "true-rank-outside-3sd-bounds-too-often", res);
   if (near_pairs) VF_CHECK(frac_near.mean >= thr_near, kp + "true-rank-outside-3sd-bounds-too-often-near-accurate-end", res);
-  c08::mean_rank_test(kp, ctx, t, zq, zacc, 6.5);
+  std::vector<double> floors(zq.size());
+  for (size_t i = 0; i < zq.size(); ++i) floors[i] = floor_hw[i] / 2;
+  c08::mean_rank_test(kp, ctx, t, zq, zacc, floors, 6.5);
   count("req_smp_cells");
   count(hra ? "req_smp_cells_hra" : "req_smp_cells_lra");
   if (c.merge) count("req_smp_cells_merged");
@@ -142,7 +152,7 @@ void run_case(uint64_t idx, Rng& r) {
       if (idx < 32) { fmax = 18; fmin = 17; } else if (idx < 200) { fmax = static_cast<int>(r.range(14, 16)); fmin = fmax - 1; }
       else { fmax = static_cast<int>(r.range(1, 13)); fmin = std::max(0, fmax - 1); }
     } else {
-      if (idx < 8) { fmax = 16; fmin = 15; } else if (idx < 28) { fmax = static_cast<int>(r.range(12, 14)); fmin = fmax - 1; }
+      if (idx < 4) { fmax = 16; fmin = 15; } else if (idx < 24) { fmax = static_cast<int>(r.range(12, 14)); fmin = fmax - 1; }
       else { fmax = static_cast<int>(r.range(1, 11)); fmin = std::max(0, fmax - 1); }
     }
     c08::exhaustive_case<ReqFam>(r, want_merge, fmin, fmax);
